@@ -292,3 +292,36 @@ func BytesOf(tag string, lens ...int) []byte {
 	}
 	return Bytes(tag, n)
 }
+
+// GuardFields registers (engine side) that the named fields of obj are shared state guarded by
+// the RWMutex field lockField: reads need the lock held (R or W), writes need W and all writes
+// to the group must happen in one write section. lockField "" means: never written while the
+// monitor is on. Field names are dotted paths (pointers are followed). Native no-op.
+func GuardFields(obj interface{}, tag string, lockField string, fields ...string) {}
+
+// AtomicFields registers cells that may only be touched through sync/atomic. Native no-op.
+func AtomicFields(obj interface{}, tag string, fields ...string) {}
+
+// MonitorOn switches the lock-discipline monitor on or off. Native no-op.
+func MonitorOn(on bool) {}
+
+var spawned []func()
+
+// Spawn registers a goroutine body; Join runs all registered bodies concurrently and waits.
+// Under the engine the bodies run under a cooperative scheduler that explores every
+// interleaving at synchronisation-operation granularity.
+func Spawn(f func()) { spawned = append(spawned, f) }
+
+func Join() {
+	done := make(chan struct{}, len(spawned))
+	for _, f := range spawned {
+		go func(f func()) {
+			defer func() { done <- struct{}{} }()
+			f()
+		}(f)
+	}
+	for range spawned {
+		<-done
+	}
+	spawned = nil
+}
